@@ -231,6 +231,66 @@ Proof.
   apply G. reflexivity.
 Qed.
 
+(* ---- pydiffx fix D15: the DOM writer does not pass a metadata section's [line_endings] option on to write_meta
+   (call_meta deletes it before the renaming).  Deleting it changes no other lookup, so the call is the one built
+   from the whole dict, and only the unexpected-keyword test sees the difference. ---- *)
+Lemma aget_set : forall (o : dopts) k K v,
+  assoc_get beq k (assoc_set beq K v o) = if beq k K then Some v else assoc_get beq k o.
+Proof.
+  induction o as [|[k0 v0] o IH]; intros k K v; [reflexivity|].
+  cbn [assoc_set]. destruct (beq K k0) eqn:E.
+  - apply beq_true_eq in E. subst k0. cbn [assoc_get]. destruct (beq k K); reflexivity.
+  - cbn [assoc_get]. rewrite IH. destruct (beq k k0) eqn:E0; [|reflexivity].
+    destruct (beq k K) eqn:E1; [|reflexivity].
+    apply beq_true_eq in E0. apply beq_true_eq in E1. subst. rewrite beq_refl in E. discriminate.
+Qed.
+
+Lemma adel_absent : forall (o : dopts) k, existsb (fun p => beq k (fst p)) o = false -> assoc_del beq k o = o.
+Proof.
+  induction o as [|[k0 v0] o IH]; intros k H; [reflexivity|].
+  cbn [existsb fst] in H. apply orb_false_iff in H. destruct H as [H1 H2].
+  cbn [assoc_del]. rewrite H1, (IH _ H2). reflexivity.
+Qed.
+
+Lemma remap_meta_del_get : forall o k, beq k (B "line_endings") = false ->
+  assoc_get beq k (remap "meta" (assoc_del beq (B "line_endings") o)) = assoc_get beq k (remap "meta" o).
+Proof.
+  intros o k Hk. unfold remap.
+  assert (G : forall acc acc' : dopts, assoc_get beq k acc = assoc_get beq k acc' ->
+    assoc_get beq k (fold_left (fun acc p =>
+                 let k := if beq (fst p) (B "type") && String.eqb "meta" "diff" then B "diff_type"
+                          else if beq (fst p) (B "format") && String.eqb "meta" "meta" then B "meta_format"
+                          else fst p in assoc_set beq k (snd p) acc) (assoc_del beq (B "line_endings") o) acc) =
+    assoc_get beq k (fold_left (fun acc p =>
+                 let k := if beq (fst p) (B "type") && String.eqb "meta" "diff" then B "diff_type"
+                          else if beq (fst p) (B "format") && String.eqb "meta" "meta" then B "meta_format"
+                          else fst p in assoc_set beq k (snd p) acc) o acc')); [|apply G; reflexivity].
+  induction o as [|[k0 v0] o IH]; intros acc acc' H; [exact H|].
+  cbn [assoc_del]. destruct (beq (B "line_endings") k0) eqn:E.
+  - apply beq_true_eq in E. subst k0. cbn [fold_left]. apply IH.
+    cbv zeta. cbn [fst snd].
+    change (if beq (B "line_endings") (B "type") && String.eqb "meta" "diff" then B "diff_type"
+            else if beq (B "line_endings") (B "format") && String.eqb "meta" "meta" then B "meta_format"
+            else B "line_endings") with (B "line_endings").
+    rewrite aget_set, Hk. exact H.
+  - cbn [fold_left]. apply IH. cbv zeta. rewrite !aget_set, H. reflexivity.
+Qed.
+
+Lemma kw_remap_meta_del : forall o,
+  kw (remap "meta" (assoc_del beq (B "line_endings") o)) "encoding" = kw (remap "meta" o) "encoding" /\
+  kw_opt (remap "meta" (assoc_del beq (B "line_endings") o)) "meta_format" = kw_opt (remap "meta" o) "meta_format".
+Proof. intro o. unfold kw, kw_opt. rewrite !remap_meta_del_get by reflexivity. split; reflexivity. Qed.
+
+(* [call_meta] with the call built from the whole dict *)
+Lemma call_meta_eq : forall s, call_meta s =
+  if is_nil (m_content s) then Ok None else
+  let o := remap "meta" (m_opts s) in
+  if negb (only_keys (remap "meta" (assoc_del beq (B "line_endings") (m_opts s))) ["encoding"; "meta_format"]) then Err EType
+  else Ok (Some (WriteMeta (WDict (JObj (m_content s))) (kw o "encoding") (kw_opt o "meta_format"))).
+Proof.
+  intro s. unfold call_meta. cbv zeta. destruct (kw_remap_meta_del (m_opts s)) as [-> ->]. reflexivity.
+Qed.
+
 Lemma hv_ov : forall v, hv_ok v = true -> ov_ok v.
 Proof. intros v H. right. exact H. Qed.
 
@@ -470,9 +530,9 @@ Lemma meta_view : forall m oc, typed_opts (m_opts m) = true -> call_meta m = Ok 
       norm_msec m = Me (content_options o) (m_content m) /\ next_cursor cur c = cur
   end.
 Proof.
-  intros [o ct] oc Ht H. unfold call_meta in H. unfold norm_msec. cbn [m_content m_opts] in *.
+  intros [o ct] oc Ht H. rewrite call_meta_eq in H. unfold norm_msec. cbn [m_content m_opts] in *.
   destruct (is_nil ct); [injection H as <-; reflexivity|].
-  destruct (negb (only_keys _ _)); [discriminate|]. injection H as <-.
+  cbv zeta in H. destruct (negb (only_keys _ _)); [discriminate|]. injection H as <-.
   intros s cur. cbn [expected_view].
   eexists. split; [reflexivity|]. split; [|reflexivity]. unfold Me. f_equal.
   symmetry. apply content_hopts; [reflexivity|].
@@ -920,6 +980,10 @@ Lemma remap_meta2 : forall a f,
   remap "meta" (present [(B "encoding", a); (B "format", f)]) = present [(B "encoding", a); (B "meta_format", f)].
 Proof. intros a f. rewrite !present_cons. destruct (is_none a), (is_none f); reflexivity. Qed.
 
+Lemma adel_le_meta2 : forall a f,
+  assoc_del beq (B "line_endings") (present [(B "encoding", a); (B "format", f)]) = present [(B "encoding", a); (B "format", f)].
+Proof. intros a f. rewrite !present_cons. destruct (is_none a), (is_none f); reflexivity. Qed.
+
 Lemma meta_norm_facts : forall a f, hv_ok f = true ->
   let o' := remap "meta" (present [(B "encoding", a); (B "format", f)]) in
   kw o' "encoding" = a /\ kw_opt o' "meta_format" = Some f /\ only_keys o' ["encoding"; "meta_format"] = true.
@@ -939,12 +1003,12 @@ Qed.
 Lemma meta_norm : forall m oc, typed_opts (m_opts m) = true -> call_meta m = Ok oc ->
   exists oc', call_meta (norm_msec m) = Ok oc' /\ opt_equiv oc oc'.
 Proof.
-  intros [o ct] oc Ht H. unfold call_meta in H. unfold norm_msec. cbn [m_content m_opts] in *.
+  intros [o ct] oc Ht H. rewrite call_meta_eq in H. unfold norm_msec. cbn [m_content m_opts] in *.
   destruct (is_nil ct) eqn:Nil; [injection H as <-; exists None; split; [reflexivity | constructor]|].
-  destruct (negb (only_keys _ _)); [discriminate|]. injection H as <-.
+  cbv zeta in H. destruct (negb (only_keys _ _)); [discriminate|]. injection H as <-.
   pose proof (format_hv _ (typed_remap "meta" o Ht)) as Hf.
   destruct (meta_norm_facts (kw (remap "meta" o) "encoding") _ Hf) as [F1 [F2 F3]].
-  unfold call_meta. cbn [m_content m_opts]. rewrite Nil, F3. cbn [negb]. rewrite F1, F2.
+  unfold call_meta. cbn [m_content m_opts]. rewrite adel_le_meta2, Nil, F3. cbn [negb]. rewrite F1, F2.
   eexists. split; [reflexivity|]. constructor. apply ce_meta.
 Qed.
 
